@@ -474,7 +474,9 @@ def main():
     for op, sig in ops:
         if sig == "f":
             for i in (0, 1, 2, -1, -2, (1 << 31) - 1, -(1 << 31)):
-                acc = M.q("frag %d 2" % i) == "1"
+                acc = M.q(("fraga %d 2" if op == "rewrite_fragment" else "frag %d 2") % i) == "1"
+                if op == "parent_fragment" and i == 0:
+                    acc = False        # the root fragment has no parent: GD_E_BAD_INDEX is documented
                 addA(op, (i,), {"pred": None, "accept": acc, "truth": 0 <= i < 2, "tag": "frag"})
                 nontrivial.add((op, i))
     ph("builds done; running A (%d cases)" % len(A))
@@ -541,7 +543,7 @@ def main():
                     vA("C10/slice-wrap/" + SLICE_FN[c["op"]], "%s succeeds although start+n exceeds the array length" % what,
                                   {"kind": "impl-vs-spec", "op": c["op"], "args": c["args"], "impl": got})
             elif p["tag"] == "addbit":
-                if (err == 0) != p["accept"]:
+                if (err == 0) != p["accept"] and not p.get("ub"):
                     model_bad.append((what, "BIT guard: implementation err=%d, model accept=%s" % (err, p["accept"])))
                 if err == 0 and not p["truth"]:
                     found_any = True
@@ -581,6 +583,8 @@ def main():
                 nm = rng.choice(["raw", "r16", "const", "nosuch"])
                 ff, fs = rng.choice([0, 1, 3, 60, I63 - 2]), rng.choice([0, 1, 5, I63 - 2, I63 - 1])
                 nf, ns = rng.choice([0, 1, 2]), rng.choice([0, 1, 5])
+                if fs >= I63 - 2:
+                    ns = 5         # stay where the range guards (not lseek) decide
                 q = "call getdata %s %d %d %d %d 1" % (nm, ff, fs, nf, ns); cmd = "op getdata64 %s %d %d %d %d 1" % (nm, ff, fs, nf, ns)
             elif w < 0.85:
                 nm = rng.choice(["n1", "n2", "n3", "raw", "const"])
